@@ -283,6 +283,16 @@ static inline __attribute__((always_inline)) void on_access(void *addr, unsigned
     Task *t = t_self;
     if (t && t->in_op && g_sim.cfg.rec_edges) {
         uintptr_t a = (uintptr_t)addr;
+        // a library heap block that was not allocated by the call in progress: state shared between calls (a pool, a
+        // cache, a table built once) that the state invariant S cannot see - every access is a conflict point
+        for (size_t i = 0; i < g_live.size() && i < 8; i++) {
+            const AllocRec &b = g_live[i];
+            if (a - (uintptr_t)b.p < b.size && (b.once || !(b.task == t->id && b.op == t->cur_op))) {
+                OpResult &r = t->res[t->cur_op];
+                if (r.n_edge < 24 && (r.n_edge == 0 || r.edge_ev[r.n_edge - 1] != t->ev + 1)) { r.edge_ev[r.n_edge++] = t->ev + 1; r.n_shared_heap++; }
+                break;
+            }
+        }
         if (a - g_arena_blk_lo < g_arena_blk_span) {
             uintptr_t off = a - (uintptr_t)t->arena.base; // wraps for addresses below the task's own arena
             if (off < 8 || off + sz > (uintptr_t)ARENA_SIZE - 8) {
@@ -613,7 +623,7 @@ static void alloc_body(void *p_) {
         if (c->result) {
             if (c->kind == 1) memset(c->result, 0, n);
             forget_freed(c->result);
-            g_live.push_back({c->result, n, s, t->id, t->cur_op, true});
+            g_live.push_back({c->result, n, s, t->id, t->cur_op, true, t->in_once > 0});
             scribble_foreign_quarantine(t);
         }
     } else {
@@ -793,7 +803,9 @@ static int sim_once(void *ctl, void (*fn)(void)) {
             // What the call wrote before entering the callback is attributed to it as usual.
             bool track = g_sim.cfg.track_static && t->op;
             if (track) alt_call(once_diff, (void *)0);
+            t->in_once++;
             fn();
+            t->in_once--;
             if (track) alt_call(once_diff, (void *)1);
             g_onces[idx].state = 2;
             return 0;
